@@ -17,6 +17,9 @@ CLAIMED = {
     "C03": ("CrossHair/z3 symbolic execution of the real relative-day rule bodies + real dateutil vs. independent integer calendar spec; year x month case split",
             "Trusted: CrossHair's datetime model (confirmations), the regex engine and the ranking that connect a surface form to the rule (exercised only in replay). Bounds: reference instants 2016-2043; quick tier covers 6 year-month cells / 4 years for the split obligations, thorough all 336 / 28.",
             "§5 C03"),
+    "C04": ("CrossHair/z3 symbolic execution of ruleLatentDOW/DOM/DOY/POD + real dateutil vs. exact nearest-future-date oracle in integer arithmetic; year x month case split",
+            "Trusted: CrossHair's datetime model, regex engine and ranking (replay only). Not covered: ruleDOWDOM (rrule not executable symbolically). Bounds: quick 24 year-month cells (2023, 2024) for day-of-month / day+month, 6 cells for weekdays, 4 years for parts of day; thorough all 336 cells / 28 years.",
+            "§5 C04"),
 }
 
 NOT_YET = {}
